@@ -419,10 +419,14 @@ def chandrupatla(ctx, rep):
         nf2.env = {}
         mask = vector_t[0].targets[0].slice
         for y in vector_t[1]:
+            pairs = []
             if isinstance(y, ast.Assign) and isinstance(y.targets[0], ast.Tuple) and isinstance(y.value, ast.Tuple):
-                for te, ve in zip(y.targets[0].elts, y.value.elts):
-                    if isinstance(ve, ast.Subscript) and isinstance(ve.value, ast.Name) and ast.dump(ve.slice) == ast.dump(mask):
-                        nf2.env[te.id] = ('name', ve.value.id)
+                pairs = list(zip(y.targets[0].elts, y.value.elts))
+            elif isinstance(y, ast.Assign) and len(y.targets) == 1 and isinstance(y.targets[0], ast.Name):
+                pairs = [(y.targets[0], y.value)]
+            for te, ve in pairs:
+                if isinstance(te, ast.Name) and isinstance(ve, ast.Subscript) and isinstance(ve.value, ast.Name) and ast.dump(ve.slice) == ast.dump(mask):
+                    nf2.env[te.id] = ('name', ve.value.id)
         b = nf2.nf(vector_t[0].value)
         rep.check('D4.scalar', fn, vector_t[0], a == b and a is not None, 'same AC normal form modulo the lane mask',
                   'the scalar branch and the vector branch compute different interpolation formulas: scalar input does not behave '
@@ -439,6 +443,29 @@ def _choices(call):
     return out
 
 
+def _only_decides_exit(fn, node, depth):
+    """The value of `node` only reaches assertion / loop-exit tests (directly, or through a local it is the only value of)."""
+    p = node
+    while p is not None and p is not fn.node:
+        par = p._parent
+        if isinstance(par, ast.Assert):
+            return True
+        if isinstance(par, ast.While) and par.test is p:
+            return True
+        if isinstance(par, ast.If) and par.test is p:
+            return all(isinstance(s, (ast.Break, ast.Return, ast.Raise)) for s in par.body) and not par.orelse
+        if isinstance(par, ast.Assign) and par.value is p and len(par.targets) == 1 and isinstance(par.targets[0], ast.Name) and depth < 3:
+            name = par.targets[0].id
+            uses = [x for x in walk_no_nested(fn.node) if isinstance(x, ast.Name) and x.id == name and isinstance(x.ctx, ast.Load)]
+            nested = any(isinstance(x, ast.Name) and x.id == name for g in ast.walk(fn.node) if isinstance(g, (ast.FunctionDef, ast.Lambda)) and g is not fn.node
+                         for x in ast.walk(g))
+            return bool(uses) and not nested and all(_only_decides_exit(fn, u, depth + 1) for u in uses)
+        if isinstance(par, ast.stmt):
+            return False
+        p = par
+    return False
+
+
 def lanes(ctx, rep, fn):
     """Reductions over the lane axis only in assert conditions and in tests that only break/return."""
     n = 0
@@ -450,21 +477,7 @@ def lanes(ctx, rep, fn):
         if call_name(c) in ('minimum', 'maximum'):
             continue
         n += 1
-        p = c
-        ok = False
-        while p is not None and p is not fn.node:
-            par = p._parent
-            if isinstance(par, ast.Assert):
-                ok = True
-                break
-            if isinstance(par, (ast.If, ast.While)) and par.test is p:
-                body = par.body if isinstance(par, ast.If) else []
-                only_exit = isinstance(par, ast.If) and all(isinstance(s, (ast.Break, ast.Return, ast.Raise)) for s in body) and not par.orelse
-                ok = only_exit
-                break
-            if isinstance(par, ast.stmt):
-                break
-            p = par
+        ok = _only_decides_exit(fn, c, 0)
         rep.check('D3.lanes', fn, c, ok, f'`{short(c, 50)}` only decides an assertion / loop exit',
                   f'`{short(c, 50)}` reduces over the lanes and flows into a value: one lane can change the result of another',
                   construct=f'{fn.name}: {short(c, 80)}')
